@@ -14,6 +14,8 @@ binding: TLC-emitted histories (all of length K over the alphabet, depths 1-3)
          4..12 (atom quotient, spec/Region_AtomTrace.tla) complete it.
 """
 import json
+
+import numpy as np
 import os
 
 from harness import common, c08, region_random
@@ -51,6 +53,21 @@ def special_histories():
         for base in ([], whole, single, multi, whole + [{"op": "get_demoted"}]):
             for tail in EXPORT_TAILS:
                 hs.append(base + tail)
+        out[D] = hs
+    # pixels of finer levels whose corners have small negative / positive declinations, sit on the RA wrap or at a
+    # pole (sign, carry and wrap handling of the DS9 coordinate text)
+    import healpy as hp
+    for D in (6, 8):
+        nside = 2 ** D
+        pix = []
+        for dec in (-0.3, -0.05, 0.3, -89.9, 89.9, -41.8, 41.8):
+            for ra in (0.05, 123.4, 359.95):
+                pix.append(int(hp.ang2pix(nside, np.radians(90.0 - dec), np.radians(ra), nest=True)))
+        pix = sorted(set(pix))
+        hs = []
+        for tail in EXPORT_TAILS[:4]:
+            hs.append([{"op": "add_pixels", "level": D, "pix": pix}] + tail)
+            hs.append([{"op": "add_pixels", "level": D - 1, "pix": sorted({q // 4 for q in pix})}] + tail)
         out[D] = hs
     return out
 
